@@ -158,9 +158,14 @@ def check(prop, tier, seed):
                     prog.append(["aliveown"])
                 elif x < 0.90:
                     prog.append(["join"])
-                else:
+                elif x < 0.97:
                     tag += 1
                     prog.append(["lazy", t * 100000 + tag])
+                else:
+                    # a chain of lazy actions, each queuing the next from inside maintain
+                    d = rng.choice([1, 3, 9, 12, 20])
+                    prog.append(["lazyc", t * 100000 + tag + 1, d])
+                    tag += d + 1
             progs.append(prog)
         sc = {"tid": tid, "mode": "free", "alive_ids": alive, "free_seq": free, "progs": progs, "schedule": [],
               "post": rng.choice([0, 0, 1, 2, 3])}
